@@ -247,6 +247,28 @@ def nt_varint(case):
     return any(abs(v - b) <= 1 for b in (0xFC, 0xFFFF, 0xFFFFFFFF, 2 ** 64 - 1, 2 ** 64)) or v >= 2 ** 64
 
 
+def check_fuzz(case, ctx):
+    """Byte-level oracle for coverage-guided fuzzing: Script.parse and read_varint on raw bytes."""
+    Script, helper = _impl()
+    data = case["data"]
+    _general_oracle(data, ctx, "C19/fuzz")
+    # read_varint alone
+    st_, val = call(helper.read_varint, BytesIO(data))
+    need = {0xFD: 3, 0xFE: 5, 0xFF: 9}.get(data[0], 1) if data else 1
+    if len(data) < need:
+        if st_ == "ok":
+            raise Violation("C19/fuzz/varint-truncated-accepted", "read_varint(%s) returned %r" % (data.hex(), val))
+    else:
+        want = data[0] if need == 1 else int.from_bytes(data[1:need], "little")
+        if st_ == "exc" or val != want:
+            raise Violation("C19/fuzz/varint-value", "read_varint(%s) -> %r, expected %d" % (data[:9].hex(), val, want))
+
+
+FUZZ_CORPUS = [R.serialize([0x76, 0xA9, b"\x11" * 20, 0x88, 0xAC]), R.serialize([0x00, b"\x22" * 32]),
+               R.serialize([0x51, b"\x02" * 33, 0x51, 0xAE]), R.serialize([b"a" * 76]), R.serialize([b"b" * 256]),
+               b"\xfd\x03\x00\x02\x01\x02"]
+
+
 def clauses():
     return [
         Clause("push-lengths", check_roundtrip,
@@ -285,4 +307,12 @@ def clauses():
                "or refused", enum=enum_varint, gen=gen_varint, nontrivial=nt_varint,
                enum_desc="band edges 0,1,0xfc..0x100,0xffff..,2^32..,2^64-1 and refused 2^64..2^128",
                n={"quick": 4000, "thorough": 200000}, shards={"quick": 2, "thorough": 8}),
+        Clause("fuzz-parse", check_fuzz,
+               "raw byte strings: hypothesis st.binary in every tier, and coverage-guided atheris/libFuzzer campaigns "
+               "(empty corpus and a corpus of six valid serialisations) with the strict-parser oracle inside the target",
+               gen=lambda tier: st.fixed_dictionaries({"data": st.binary(max_size=80)}),
+               nontrivial=lambda c: len(c["data"]) >= 2,
+               n={"quick": 3000, "thorough": 100000}, shards={"quick": 2, "thorough": 8},
+               fuzz={"runs": {"quick": 30000, "thorough": 1500000}, "campaigns": {"quick": 2, "thorough": 8},
+                     "max_len": 700, "corpus": FUZZ_CORPUS}),
     ]
